@@ -31,7 +31,7 @@ RULE = ("seeded generator: one session id driven through udpSessionManager.feed 
 ASSUMPTIONS = [
     "the outbound policy is a function of the destination string (CheckUDP(a)==nil iff UDP(a) would be allowed): Section variable P",
     "UDP(a) succeeds only for destinations the policy allows (the dial vets the first destination)",
-    "a client datagram never carries the empty destination string (wf_input; ParseUDPMessage rejects a zero-length address)",
+    "a client datagram never carries the empty destination string (wf_input; ParseUDPMessage rejects a zero-length address): discharged from C05's model of ParseUDPMessage for sessions driven by raw datagram bytes (C08_parsed_address_nonempty, C08_raw_denied_never_written, C08_raw_check_is_write; coq/proof/C08_Raw.v; the glue - skip what does not parse, as udpIOImpl.ReceiveMessage does - is read from the code, the parser itself is tied by the C05 check incl. zero-length addresses)",
 ]
 TRUSTED = ["modelled rather than verified: udpSessionEntry.Feed/checkAddr/initConn and the reply address stamp of core/server/udp.go "
            "(hand transcription in coq/model/C08_UDPPolicy.v and, with the Defragger in front and the WriteTo result explicit, "
